@@ -85,6 +85,9 @@ THRESHOLDS = ([(None, None)] + [(a, None) for a in ["0", "1/4", "1/2", "1", "-1/
 
 
 # ---------------------------------------------------------------- tie 1b
+_UNF = "SE.Intervals.intervalsOverlap SE.Intervals.threshold SE.Intervals.thrOverlap"
+
+
 def _symbolic_ties(ctx):
     import soundevent.geometry.operations as ops
     V = ["s1", "e1", "s2", "e2", "a", "r"]
@@ -94,32 +97,28 @@ def _symbolic_ties(ctx):
              "both": ({"min_absolute_overlap": a, "min_relative_overlap": r}, "(some a) (some r)")}
     for m, (kw, margs) in modes.items():
         name = f"ext_overlap_{m}"
-        src, tree, n = st.extract(name, lambda kw=kw: ops.intervals_overlap((s1, e1), (s2, e2), **kw), V, "Bool")
-        ctx.symbolic_ties[name] = {"paths": n}
-        ctx.obligation(name, st.tie_obligation(
-            name, src, V, f"SE.Intervals.intervalsOverlap s1 e1 s2 e2 {margs}",
-            ["SE.Intervals.intervalsOverlap", "SE.Intervals.threshold", "SE.Intervals.thrOverlap"],
-            tactic=f"unfold {name} SE.Intervals.intervalsOverlap SE.Intervals.threshold SE.Intervals.thrOverlap\n"
-                   "  se_close"), {"op": "intervals_overlap"})
+        ctx.sym_tie(name, lambda kw=kw: ops.intervals_overlap((s1, e1), (s2, e2), **kw), V, "Bool",
+                    f"SE.Intervals.intervalsOverlap s1 e1 s2 e2 {margs}",
+                    tactic=f"unfold {name} {_UNF}\n  se_close", meta={"op": "intervals_overlap"})
     # geometry delegation: compute_bounds stubbed by a symbolic 4-tuple -> pins which components are read
     BV = ["st1", "lo1", "en1", "hi1", "st2", "lo2", "en2", "hi2", "a", "r"]
     syms = {n: Sym.var(n) for n in BV}
-    G1, G2 = object(), object()
-    table = {id(G1): tuple(syms[n] for n in BV[0:4]), id(G2): tuple(syms[n] for n in BV[4:8])}
+
+    class _Geom:      # a geometry stand-in: any attribute access beyond compute_bounds makes the trace fail
+        def __init__(self, b):
+            self._b = b
+    G1, G2 = _Geom(tuple(syms[n] for n in BV[0:4])), _Geom(tuple(syms[n] for n in BV[4:8]))
     orig = ops.compute_bounds
-    ops.compute_bounds = lambda g: table[id(g)]
+    ops.compute_bounds = lambda g: g._b
     try:
         for fname, mname in [("have_temporal_overlap", "temporalOverlap"), ("have_frequency_overlap", "frequencyOverlap")]:
             for m, (kw, margs) in modes.items():
                 kw = {k: syms["a"] if k == "min_absolute_overlap" else syms["r"] for k in kw}
                 name = f"ext_{fname}_{m}"
-                src, tree, n = st.extract(name, lambda kw=kw: getattr(ops, fname)(G1, G2, **kw), BV, "Bool")
-                ctx.symbolic_ties[name] = {"paths": n}
-                ctx.obligation(name, st.tie_obligation(
-                    name, src, BV, f"SE.Intervals.{mname} ⟨st1, lo1, en1, hi1⟩ ⟨st2, lo2, en2, hi2⟩ {margs}", [],
-                    tactic=f"unfold {name} SE.Intervals.{mname} SE.Intervals.intervalsOverlap SE.Intervals.threshold "
-                           "SE.Intervals.thrOverlap\n  se_close"),
-                    {"op": "temporal" if "temporal" in fname else "frequency"})
+                ctx.sym_tie(name, lambda kw=kw, fname=fname: getattr(ops, fname)(G1, G2, **kw), BV, "Bool",
+                            f"SE.Intervals.{mname} ⟨st1, lo1, en1, hi1⟩ ⟨st2, lo2, en2, hi2⟩ {margs}",
+                            tactic=f"unfold {name} SE.Intervals.{mname} {_UNF}\n  se_close",
+                            meta={"op": "temporal" if "temporal" in fname else "frequency"})
         # is_in_clip
         CV = ["st1", "lo1", "en1", "hi1", "cs", "ce", "m"]
         cs, ce, mm = Sym.var("cs"), Sym.var("ce"), Sym.var("m")
@@ -128,11 +127,9 @@ def _symbolic_ties(ctx):
             start_time = cs
             end_time = ce
         name = "ext_is_in_clip"
-        src, tree, n = st.extract(name, lambda: ops.is_in_clip(G1, _Clip(), minimum_overlap=mm), CV, "Bool")
-        ctx.symbolic_ties[name] = {"paths": n}
-        ctx.obligation(name, st.tie_obligation(
-            name, src, CV, "SE.Intervals.isInClip ⟨st1, lo1, en1, hi1⟩ cs ce m", [],
-            tactic=f"unfold {name} SE.Intervals.isInClip\n  se_close"), {"op": "is_in_clip"})
+        ctx.sym_tie(name, lambda: ops.is_in_clip(G1, _Clip(), minimum_overlap=mm), CV, "Bool",
+                    "SE.Intervals.isInClip ⟨st1, lo1, en1, hi1⟩ cs ce m",
+                    tactic=f"unfold {name} SE.Intervals.isInClip\n  se_close", meta={"op": "is_in_clip"})
     finally:
         ops.compute_bounds = orig
 
@@ -195,8 +192,13 @@ def _clip_cases(rng, reps):
 
 
 def run(ctx):
-    _symbolic_ties(ctx)
-    ctx.discharge(["SoundeventModel.Intervals", "SoundeventModel.Tactics"])
+    ctx.stage("symbolic-ties", _symbolic_ties, ctx)
+    ctx.stage("discharge", ctx.discharge, ["SoundeventModel.Intervals", "SoundeventModel.Tactics"])
+    ctx.stage("correspondence", _correspondence, ctx)
+
+
+def _correspondence(ctx):
+    ctx.run_corpus(OPS)
     den = 4 if ctx.thorough() else 2
     ctx.run_cases(OPS["intervals_overlap"], _grid_interval_cases(den))
     ctx.exhaustive["intervals_overlap grid"] = f"end points i/{den}, i=0..{2 * den}, all 4-tuples x {len(THRESHOLDS)} threshold settings"
